@@ -62,6 +62,31 @@ const SHA256_K = new Uint32Array([
 const HEX = "0123456789abcdef";
 const textEncoder = new TextEncoder();
 
+const LONE_SURROGATE = /[\ud800-\udbff](?![\udc00-\udfff])|(?<![\ud800-\udbff])[\udc00-\udfff]/;
+
+// TextEncoder writes U+FFFD for every unpaired surrogate, so "\ud800", "\udc00" and "\ufffd" would share one encoding
+// although they are three different strings: an unpaired surrogate is written as the three bytes of its own code point
+// (generalised UTF-8); a well-formed string is encoded as before
+const encodeUtf8 = (value: string): Uint8Array => {
+  if (!LONE_SURROGATE.test(value)) {
+    return textEncoder.encode(value);
+  }
+  const out: number[] = [];
+  for (const ch of value) {
+    const cp = ch.codePointAt(0) ?? 0;
+    if (cp < 0x80) {
+      out.push(cp);
+    } else if (cp < 0x800) {
+      out.push(0xc0 | (cp >> 6), 0x80 | (cp & 63));
+    } else if (cp < 0x10000) {
+      out.push(0xe0 | (cp >> 12), 0x80 | ((cp >> 6) & 63), 0x80 | (cp & 63));
+    } else {
+      out.push(0xf0 | (cp >> 18), 0x80 | ((cp >> 12) & 63), 0x80 | ((cp >> 6) & 63), 0x80 | (cp & 63));
+    }
+  }
+  return Uint8Array.from(out);
+};
+
 function rotateRight(value: number, bits: number): number {
   return (value >>> bits) | (value << (32 - bits));
 }
@@ -118,7 +143,7 @@ export class Hash256Writer {
   }
 
   private updateUtf8WithLength(value: string): void {
-    const bytes = textEncoder.encode(value);
+    const bytes = encodeUtf8(value);
     this.updateUint32(bytes.length);
     this.updateBytes(bytes);
   }
